@@ -5,6 +5,7 @@ import random
 from fractions import Fraction as F
 
 from ..cases import Case, run_cases, Q, U, V, M, OP, MODE
+from ..oracle import brief
 from ..ctl import num, val, is_exc, dec_str, EXACT_TYPES
 from ..models import rounding as RM
 from ..models import si_table as SI
@@ -13,7 +14,9 @@ RULE = ("grid: 8 modes x {explicit, default} x {Decimal, Fraction amount} x "
         "sign x {multiple, tie, tie+-1e-6, 1/3, 9/10 of a step} x quanta "
         "n/d in any unit of the type x quotients -50..50; a case is "
         "non-trivial if the amount is not already a multiple of the quantum; "
-        "distinct by (type, units, quantum, amount, mode, repr, explicit)")
+        "distinct by (type, units, quantum, amount, mode, repr, explicit); one "
+        "case in seven repeats the call under every other default mode in the "
+        "same process")
 ANCHORS = ("_floordiv_rounded", "_quantize_fraction", "Quantity.quantize",
            "Quantity.__round__")
 
@@ -79,6 +82,15 @@ def gen_case(rng, chk, mode, explicit, as_fraction, tname=None):
         steps.append({"setmode": other, "body": [call]})
     else:
         steps.append({"setmode": mode, "body": [call]})
+    sweep = []
+    if not explicit and rng.random() < 0.15:
+        # the very same quantity and quantum under every other default mode,
+        # one after the other in one process: nothing may remember a mode
+        sweep = [m_ for m_ in RM.MODES if m_ != mode]
+        rng.shuffle(sweep)
+        for m_ in sweep:
+            steps.append({"setmode": m_, "body": [
+                {"k": "r:" + m_, "e": M(V("q"), "quantize", V("g"))}]})
     info = dict(type=tname, u=u, qu=qu, g=str(g_amount), x=str(x), mode=mode,
                 explicit=explicit, frac=as_fraction, off=off)
 
@@ -125,6 +137,18 @@ def gen_case(rng, chk, mode, explicit, as_fraction, tname=None):
             chk.violation("quantize: " + "; ".join(bad),
                           dict(info=info, obs=obs, steps=steps,
                                want=str(want)), "quantize-value")
+        for m_ in sweep:
+            r2 = obs.get("r:" + m_)
+            w2 = RM.round_to(xs, gs, m_)
+            chk.count("same quantity and quantum under a sequence of "
+                      "default modes")
+            if r2 is None or r2.get("k") != "Q" or val(r2) != w2:
+                chk.violation(
+                    "quantize under default mode %s after other modes in the "
+                    "same process: got %s, expected %s" % (m_, brief(r2), w2),
+                    dict(info=info, obs=obs, steps=steps, want=str(w2)),
+                    "quantize-mode-sequence")
+                break
         chk.sample(dict(info=info, stored=str(xs), quantum=str(gs),
                         got=str(val(r)), want=str(want)))
     return Case(steps, judge, info)
